@@ -477,3 +477,196 @@ pub fn censor_sharded<K: SymK, const N: usize, const M: usize>() {
     kani::cover!(was && !seen);
     kani::cover!(was && valid);
 }
+
+// ---------------------------------------------------------------- C09 growth loops (hook H2c)
+use debruijn::compression::verif_hooks::{build_graph_node_from, extend_node_walk};
+
+impl<K: SymK, const NN: usize, const L: usize> G<K, NN, L> {
+    /// The node-level join decision in string terms (the statement checked by `node_step`).
+    /// -> (graph valid on the examined link, Some((next node, outgoing side)) when mergeable)
+    pub fn ref_node_step<const JOIN_EQ: bool>(&self, avail: &[bool; NN], cur: usize, dir: Dir) -> (bool, Option<(usize, Dir)>) {
+        let e = self.exts[cur];
+        let single_pal = !self.stranded && self.lens[cur] == K::k() && pal(self.term(cur, Dir::Left));
+        if cnt(e, dir) == 1 && !single_pal {
+            let b = uniq(e, dir);
+            let next = self.term(cur, dir).extend(b, dir);
+            match self.ref_link(next, dir) {
+                None => return (false, None), // code panics "No kmer": extensions must reference present nodes
+                Some((t, incoming, _flip)) => {
+                    let join = if JOIN_EQ { self.data[cur] == self.data[t] } else { true };
+                    if avail[t] && (self.stranded || !pal(next)) && join {
+                        let inc = cnt(self.exts[t], incoming);
+                        if inc == 0 {
+                            return (false, None); // documented unreachable
+                        } else if inc == 1 {
+                            return (true, Some((t, flipd(incoming))));
+                        }
+                    }
+                }
+            }
+        }
+        (true, None)
+    }
+
+    /// Reference walk over nodes. Marks the start node and every walked node unavailable.
+    /// -> (valid, [(node, incoming side)], count, end node, end direction)
+    pub fn ref_node_walk<const JOIN_EQ: bool>(&self, avail: &mut [bool; NN], start: usize, start_dir: Dir) -> (bool, [(usize, Dir); NN], usize, usize, Dir) {
+        let mut path = [(0usize, Dir::Left); NN];
+        let mut n = 0;
+        let mut ok = true;
+        let mut cur = start;
+        let mut dir = start_dir;
+        avail[start] = false;
+        let mut it = 0;
+        while it < NN {
+            let (v, r) = self.ref_node_step::<JOIN_EQ>(avail, cur, dir);
+            ok &= v;
+            match r {
+                Some((t, out)) => {
+                    path[n] = (t, flipd(out));
+                    n += 1;
+                    avail[t] = false;
+                    cur = t;
+                    dir = out;
+                }
+                None => break,
+            }
+            it += 1;
+        }
+        (ok, path, n, cur, dir)
+    }
+
+    /// base p of node n read in orientation d (Left = as stored, Right = reverse complement)
+    pub fn oriented(&self, n: usize, d: Dir, p: usize) -> u8 {
+        if is_left(d) {
+            self.seqs[n][p]
+        } else {
+            3 - self.seqs[n][self.lens[n] - 1 - p]
+        }
+    }
+}
+
+/// C09: `extend_node` — the node walk continues exactly while the node-level decision says
+/// Unique, visits the reference walk's nodes with the reference incoming sides, removes exactly
+/// those nodes (and the start node) from the availability set, reports the end extensions.
+pub fn node_walk<K: SymK, const NN: usize, const L: usize, const JOIN_EQ: bool>(lens: [usize; NN]) {
+    let g = any_graph::<K, NN, L>(lens);
+    g.assume_distinct_ends();
+    let avail0: [bool; NN] = kani::any();
+    let start = any_index(NN);
+    let dir = any_dir();
+    let mut avail = avail0;
+    let (ok, rpath, rn, end, end_dir) = g.ref_node_walk::<JOIN_EQ>(&mut avail, start, dir);
+    kani::assume(ok);
+    let set = avail_set(&avail0);
+    let (path, e, after) = if JOIN_EQ {
+        let spec: ScmapCompress<u8> = ScmapCompress::new();
+        extend_node_walk(g.stranded, &spec, &g.g, set, start, dir)
+    } else {
+        let spec = SimpleCompress::new(|a: u8, _b: &u8| a);
+        extend_node_walk(g.stranded, &spec, &g.g, set, start, dir)
+    };
+    assert!(path.len() == rn);
+    let mut i = 0;
+    while i < NN {
+        if i < rn {
+            assert!(path[i].0 == rpath[i].0 && same_dir(path[i].1, rpath[i].1));
+        }
+        assert!(after.contains(i) == avail[i]);
+        i += 1;
+    }
+    assert!(e.val == nib(g.exts[end], end_dir));
+    kani::cover!(rn == NN - 1);
+    kani::cover!(rn == 0 && cnt(g.exts[start], dir) == 1);
+    kani::cover!(rn >= 1 && !g.stranded && same_dir(rpath[0].1, dir));
+    core::mem::forget((g, path, after));
+}
+
+/// C09: `build_node` of the graph re-compressor — merged sequence, node path, payload fold,
+/// extensions and availability bookkeeping against the reference walk (left, then right).
+pub fn graph_build_node<K: SymK, const NN: usize, const L: usize, const JOIN_EQ: bool>(lens: [usize; NN]) {
+    let g = any_graph::<K, NN, L>(lens);
+    g.assume_distinct_ends();
+    let avail0: [bool; NN] = kani::any();
+    let seed = any_index(NN);
+    kani::assume(avail0[seed]);
+    let k = K::k();
+    let mut avail = avail0;
+    let (ok_l, lp, ln, lend, lend_dir) = g.ref_node_walk::<JOIN_EQ>(&mut avail, seed, Dir::Left);
+    let (ok_r, rp, rn, rend, rend_dir) = g.ref_node_walk::<JOIN_EQ>(&mut avail, seed, Dir::Right);
+    kani::assume(ok_l && ok_r);
+    let set = avail_set(&avail0);
+    let (s, e, np, d, after) = if JOIN_EQ {
+        let spec: ScmapCompress<u8> = ScmapCompress::new();
+        build_graph_node_from(g.stranded, &spec, &g.g, set, seed)
+    } else {
+        let spec = SimpleCompress::new(|a: u8, b: &u8| a.wrapping_add(b.wrapping_mul(2)).wrapping_add(1));
+        build_graph_node_from(g.stranded, &spec, &g.g, set, seed)
+    };
+    // chain in reading order: lp[ln-1] .. lp[0], seed, rp[0] .. rp[rn-1]; member m is read
+    // forward (Left) iff: left part — it was entered on its Right side while walking left;
+    // right part — it was entered on its Left side while walking right
+    let members = 1 + ln + rn;
+    assert!(np.len() == members);
+    let member = |m: usize| -> (usize, Dir) {
+        if m < ln {
+            let (n, inc) = lp[ln - 1 - m];
+            (n, flipd(inc))
+        } else if m == ln {
+            (seed, Dir::Left)
+        } else {
+            rp[m - ln - 1]
+        }
+    };
+    // (1) node path
+    let m = any_index(NN);
+    kani::assume(m < members);
+    let (mn, md) = member(m);
+    assert!(np[m].0 == mn && same_dir(np[m].1, md));
+    // (2) merged sequence: members overlapped by K-1, each in its reading orientation
+    let mut total = 0usize;
+    let mut off = [0usize; NN];
+    let mut i = 0;
+    while i < NN {
+        if i < members {
+            let (n, _) = member(i);
+            off[i] = if i == 0 { 0 } else { total - (k - 1) };
+            total = off[i] + lens[n];
+        }
+        i += 1;
+    }
+    assert!(s.len() == total);
+    let p = any_index(L);
+    kani::assume(p < lens[mn]);
+    assert!(s.get(off[m] + p) == g.oriented(mn, md, p));
+    // (3) bookkeeping and (4) payload
+    let mut fold = g.data[seed];
+    let mut i = 0;
+    while i < NN {
+        assert!(after.contains(i) == avail[i]);
+        if avail0[i] && !avail[i] && i != seed {
+            fold = fold.wrapping_add(g.data[i].wrapping_mul(2)).wrapping_add(1);
+        }
+        i += 1;
+    }
+    if JOIN_EQ {
+        assert!(d == g.data[seed]);
+    } else {
+        assert!(d == fold);
+    }
+    // (5) extensions of the merged node, in reading orientation
+    let lraw = nib(g.exts[lend], lend_dir);
+    let lwant = if is_left(lend_dir) { lraw } else { compl4(lraw) };
+    let rraw = nib(g.exts[rend], rend_dir);
+    let rwant = if is_left(rend_dir) { compl4(rraw) } else { rraw };
+    assert!(e.val == (lwant | (rwant << 4)));
+    kani::cover!(members == NN && NN > 1);
+    kani::cover!(members == 1);
+    kani::cover!(ln >= 1 && is_left(lp[0].1));
+    kani::cover!(rn >= 1 && !is_left(rp[0].1));
+    core::mem::forget((g, s, np, after));
+}
+
+fn compl4(n: u8) -> u8 {
+    ((n & 1) << 3) | ((n & 2) << 1) | ((n & 4) >> 1) | ((n & 8) >> 3)
+}
